@@ -68,23 +68,27 @@ fn max_cmds(acts: &[Act]) -> usize {
 }
 
 fn describe(tree: &Tree, bcfgs: &[BCfg], inj: &str) -> (Vec<(String, String)>, bool) {
-    fn walk(a: &[Act], top_panic: &mut usize, ctr_panic: &mut usize, unexposed: &mut usize, shapes: &mut Vec<&'static str>, depth: &mut usize, d: usize) {
+    fn walk(a: &[Act], top_panic: &mut usize, ctr_panic: &mut usize, unexposed: &mut usize, ports: &mut usize, shapes: &mut Vec<&'static str>, depth: &mut usize, d: usize) {
         *depth = (*depth).max(d);
         for x in a { match x {
             Act::Panic => { *top_panic += 1; shapes.push("panic"); }
             Act::Shell(_) => shapes.push("shell"), Act::Sbom => shapes.push("sbom"),
-            Act::Start(_, c) => { shapes.push("start"); if !c.is_empty() { *depth = (*depth).max(d + 1); } for y in c { match y { CAct::Panic => *ctr_panic += 1, CAct::Port(9999) => *unexposed += 1, _ => {} } } }
-            Act::RebuildCtx(_, inner) => { shapes.push("rebuild-from-context-config"); walk(inner, top_panic, ctr_panic, unexposed, shapes, depth, d + 1); }
-            Act::Rebuild(_, inner) => { shapes.push("rebuild"); walk(inner, top_panic, ctr_panic, unexposed, shapes, depth, d + 1); }
+            Act::Start(_, c) => { shapes.push("start"); if !c.is_empty() { *depth = (*depth).max(d + 1); } for y in c { match y { CAct::Panic => *ctr_panic += 1, CAct::Port(9999) => *unexposed += 1, CAct::Port(_) => *ports += 1, _ => {} } } }
+            Act::RebuildCtx(_, inner) => { shapes.push("rebuild-from-context-config"); walk(inner, top_panic, ctr_panic, unexposed, ports, shapes, depth, d + 1); }
+            Act::Rebuild(_, inner) => { shapes.push("rebuild"); walk(inner, top_panic, ctr_panic, unexposed, ports, shapes, depth, d + 1); }
         } }
     }
-    let (mut tp, mut cp, mut un, mut shapes, mut depth) = (0, 0, 0, vec![], 1);
-    walk(&tree.acts, &mut tp, &mut cp, &mut un, &mut shapes, &mut depth, 2);
+    let (mut tp, mut cp, mut un, mut ports, mut shapes, mut depth) = (0, 0, 0, 0, vec![], 1);
+    walk(&tree.acts, &mut tp, &mut cp, &mut un, &mut ports, &mut shapes, &mut depth, 2);
     shapes.sort(); shapes.dedup();
     let ch = chain(tree);
     let intrinsic = ch.iter().any(|i| { let b = &bcfgs[*i]; matches!(b.app, AppDir::Missing) || b.triple == 'o' || b.expect_success == b.pack_nonzero });
     let sources = tp + cp + un;
-    let kind = inj.split(':').next().unwrap_or("-");
+    let (base_inj, flavour) = inj.split_once('@').unwrap_or((inj, "0"));
+    let kind = base_inj.split(':').next().unwrap_or("-");
+    let status = if kind == "z" { base_inj.split(':').nth(2).unwrap_or("7") } else { "-" };
+    // (flavour 3 — unparsable `docker port` output — turns every exposed-port look-up into one more panic source)
+    let sources = sources + if flavour == "3" { ports } else { 0 };
     let in_scope = match kind { "-" => sources <= 1, "z" | "nfp" => sources == 0, _ => false };
     let tags = vec![
         (s("inj"), s(match kind { "-" => "none", "z" => "kth-command-nonzero", "nfp" => "pack-not-found", _ => "docker-not-found" })),
@@ -94,15 +98,27 @@ fn describe(tree: &Tree, bcfgs: &[BCfg], inj: &str) -> (Vec<(String, String)>, b
         (s("builds"), ch.len().to_string()),
         (s("cfg"), s(if intrinsic { "panics-by-itself" } else { "proceeds" })),
         (s("in_quantifier"), s(if in_scope { "1" } else { "0" })),
+        (s("status"), s(status)), (s("outputs"), s(flavour)),
     ];
     (tags, kind != "-" || sources > 0 || intrinsic)
 }
+
+/// exit statuses of an injected failure: generic, shell conventions (126/127), docker's own 125, 137 (128+SIGKILL), 255, death by signal
+const STATUSES: [&str; 9] = ["1", "2", "7", "125", "126", "127", "137", "255", "sig"];
 
 fn generate(tier: &str, seed: u64, emit: &mut dyn FnMut(Case)) {
     let fixture = vec![(s("Procfile"), b"web: true\n".to_vec())];
     let cc = ccfgs();
     let thorough = tier == "thorough";
+    // the exit status of an injected failure and the texts the tools print rotate through the enumeration, so that every
+    // status meets every command kind in many trees; block 0 below pairs every command kind with every status explicitly
+    let mut counter = 0usize;
     let mut push = |bcfgs: &[BCfg], tree: &Tree, inj: String| {
+        counter += 1;
+        let inj = if inj.contains('@') { inj } else {
+            let base = if inj.starts_with("z:") && inj.matches(':').count() == 1 { format!("{inj}:{}", STATUSES[counter % STATUSES.len()]) } else { inj };
+            format!("{base}@{}", (counter / STATUSES.len()) % 3)
+        };
         let (tags, nt) = describe(tree, bcfgs, &inj);
         emit(Case {
             fields: vec![enc_fixture(&fixture), enc_list(bcfgs.iter().map(enc_bcfg).collect()), enc_list(cc.iter().map(enc_ccfg).collect()), enc_tree(tree), inj],
@@ -110,6 +126,25 @@ fn generate(tier: &str, seed: u64, emit: &mut dyn FnMut(Case)) {
         });
     };
     let base = vec![bcfg(true, false, true, rel(), 'x'), bcfg(true, false, false, AppDir::Abs(s("/app")), 'x')];
+    // 0. every kind of external command × every exit status × three sets of tool outputs; unparsable `docker port` output
+    let start = |c: Vec<CAct>| vec![Act::Start(0, c)];
+    let kinds: Vec<(&str, Vec<Act>, usize)> = vec![
+        ("pack build", vec![], 1), ("docker rmi", vec![], 2), ("docker volume remove", vec![], 3),
+        ("docker run --detach", start(vec![]), 2), ("docker rm", start(vec![]), 3),
+        ("docker logs", start(vec![CAct::LogsNow]), 3), ("docker logs --follow", start(vec![CAct::LogsWait]), 3),
+        ("docker port", start(vec![CAct::Port(8080)]), 3), ("docker exec", start(vec![CAct::Exec(s("ps"))]), 3),
+        ("docker rm after steps", start(vec![CAct::LogsNow, CAct::Exec(s("ps"))]), 5),
+        ("docker run --rm", vec![Act::Shell(s("true"))], 2), ("pack sbom download", vec![Act::Sbom], 2),
+        ("pack build (rebuild)", vec![Act::Rebuild(1, vec![])], 2), ("docker run --detach (after rebuild)", vec![Act::RebuildCtx(1, start(vec![]))], 3),
+    ];
+    for (_, acts, k) in &kinds { for st in STATUSES { for f in 0..3 {
+        push(&base, &Tree { cfg: 0, acts: acts.clone() }, format!("z:{k}:{st}@{f}"));
+    } } }
+    for acts in [start(vec![CAct::Port(8080)]), start(vec![CAct::LogsNow, CAct::Port(8080), CAct::Exec(s("ps"))]), start(vec![CAct::Port(9999)]), vec![Act::Shell(s("true"))]] {
+        let tree = Tree { cfg: 0, acts };
+        push(&base, &tree, s("-@3"));
+        for k in 1..=max_cmds(&tree.acts) { push(&base, &tree, format!("z:{k}:125@3")); }
+    }
     // 1. every closure without rebuild × every injection point
     let lists = act_lists(tier);
     for acts in &lists {
@@ -194,7 +229,8 @@ fn generate(tier: &str, seed: u64, emit: &mut dyn FnMut(Case)) {
         }
         let tree = Tree { cfg: 0, acts };
         let m = max_cmds(&tree.acts) as u64;
-        let inj = match r.below(8) { 0 => s("-"), 1 => format!("nfp:{}", 1 + r.below(3)), 2 => format!("nfd:{}", 1 + r.below(6)), _ => format!("z:{}", 1 + r.below(m)) };
+        let inj = match r.below(8) { 0 => s("-"), 1 => format!("nfp:{}", 1 + r.below(3)), 2 => format!("nfd:{}", 1 + r.below(6)), _ => format!("z:{}:{}", 1 + r.below(m), r.pick(&STATUSES)) };
+        let inj = format!("{inj}@{}", r.below(4));
         push(&cfgs, &tree, inj);
     }
 }
